@@ -609,8 +609,10 @@ class DateTime(Element):
         except ValueError:
             # Interactive Brokers sends invalid date/time data formatted like
             #  YYYYMMDDHHMMSS.XXX[-:TZ]
-            # If we can't parse hours, try to infer from TZ name
-            if tz_name not in utils.TZS:
+            # If we can't parse hours, try to infer from TZ name - but only
+            # for that format (a bare sign); anything else (e.g. "2+8") is
+            # simply not a GMT offset.
+            if hours not in ("-", "+") or tz_name not in utils.TZS:
                 msg = f"Can't parse timezone '{tz_name}' into a valid GMT offset"
                 raise ValueError(msg)
 
